@@ -112,6 +112,11 @@ def close(a, b, atol=1e-12, rtol=1e-9):
     return bool(np.max(np.abs(a - b)) <= atol + rtol * scale) if a.size else True
 
 
+def gt(x, y):
+    """x > y, with a not-a-number on either side counted as 'greater' (a NaN result must never pass a tolerance test)"""
+    return not (x <= y)
+
+
 def maxdiff(a, b):
     a = np.asarray(a, dtype=float); b = np.asarray(b, dtype=float)
     return float(np.max(np.abs(a - b))) if a.size else 0.0
